@@ -8,21 +8,58 @@ TRUSTED = ("Trusted base: z3 5.1.0; the SX engine (sx/core.py) and numpy proxy (
            "scipy's _constraints.py re-loaded under the proxy with VectorFunction/LinearVectorFunction/IdentityVectorFunction modelled "
            "(sx/loader.py); finite arithmetic interpreted as exact real arithmetic, IEEE-754 special values and comparisons exact. ")
 
+CTL = ("Control-flow harness (harness/ctl.py): the real main.minimize, _eval, _build_result, all of problem.py, TrustRegion (minus numerical kernels), Interpolation and Models (minus Quadratic) are executed symbolically "
+       "on concrete geometry; every value returned by a user function is a fresh symbolic double (finite |v|<=1e6, and in 'all' shapes NaN, +-inf, +-1e300), the callback may stop at any call, and every numerical kernel is a nondeterministic contract stub. "
+       "Bounds: 24 problem/option shapes (n<=2, maxfev<=4, maxiter<=2) quick; 19 statements x 5 option sets (maxfev<=6, maxiter<=3) thorough. ")
+CTLNOTE = TRUSTED + ("Kernel stubs (Quadratic, the five sub-solvers, lsq_linear, determinants, _get_low_penalty) return arbitrary admissible results (contract = C15/C13); the norm of >=2 symbolic entries is over-approximated. "
+                    "Counterexamples are replayed natively with the stubs pinned to the model's choices. ")
+
+def mc(technique, text, note, design):
+    return dict(technique=technique, text=text, note=note, design=design)
+
 CLAIMS = {
- "C03": dict(
-   technique="bounded symbolic execution of the real Problem.__call__/best_eval over z3 (LRA/NRA), every (f,v) history up to K evaluations, native replay of counterexamples",
-   text=("Bounded model checking by symbolic execution of the real filter/selection code: for every sequence of K<=3 (quick) / K<=4 all kinds, K=5 finite+NaN (thorough) "
-         "evaluations with objective in {finite,NaN,+inf,-inf} and violation in {finite>=0,NaN,+inf}, every penalty>=0 and tolerance>0, filter_size in {1,2,3,unbounded}, "
-         "z3 proves each clause of the selection rule on every feasible path or returns a history that is replayed on the unmodified code."),
-   note=TRUSTED + "Problem.maxcv is replaced on the instance by an injected violation per evaluation; the end-to-end half (OptimizeResult vs evaluation log) is covered by the control-flow harness when present.",
-   design="5/C03, 4/H-FILT"),
- "C19": dict(
-   technique="symbolic execution of the real _set_default_constants/_set_default_options/minimize over z3 LRA with symbolic supplied values, enumerated key subsets; oracle = transcribed domain table",
-   text=("For every enumerated subset of supplied keys (each coupled pair in all 3 non-empty subsets, each single key, none, all 19; pairs of groups in thorough) and EVERY finite value of the supplied floats, "
-         "z3 proves: ValueError iff a documented domain/order restriction is violated; otherwise the completed settings satisfy every documented domain and relation, supplied values are kept, "
-         "unsupplied keys whose partner is unsupplied take the documented default; unknown names only warn and do not alter the run. Integer options range over an enumerated boundary lattice, n in 1..2 (quick) / 1..5."),
-   note=TRUSTED + "The specification table (harness/opt.py) is transcribed from the minimize docstring and the ValueError messages; NaN/inf supplied values excluded. End-to-end shapes stop the run at the first evaluation through the callback.",
-   design="5/C19, 4/H-OPT"),
+ "C01": mc("bounded symbolic execution (z3 LRA) of the real problem layer with symbolic bounds/x0/points, and of whole runs; assertion: every logged user-function/callback/returned point inside the user's box",
+   "Part (a) of the property (observable points): for every bound pattern (free/lower/upper/two-sided/fixed), symbolic bounds, x0 and internal point anywhere (n<=2, scale on/off), z3 proves that every argument of a user function and the returned x lie inside [lb, ub] and fixed variables are pinned (harness/pb.py); the same is asserted on every path of the control-flow harness for every user call, callback argument and result. " + CTL +
+   "Part (b) (trial points inside the box by construction, before projection) is not claimed yet.",
+   CTLNOTE + "Exact real arithmetic for x*factor+shift; np.clip modelled with IEEE semantics.", "5/C01"),
+ "C02": mc("bounded symbolic execution (z3 LRA): reported fun/maxcv vs harness-side true violation computed from the user's statement and the logged user-function values",
+   "For every path of the problem-layer harness (symbolic bounds, limits over -inf/finite/equal/+inf/NaN, symbolic point, values) and of the control-flow harness, z3 proves res.x was evaluated, res.fun is the value returned there and res.maxcv equals max(0, bound/linear/nonlinear excess) in the user's variables (margin 1e-7 / 1e-9). " + CTL,
+   CTLNOTE + "H-PB value claims assume the internal point inside the internal box.", "5/C02"),
+ "C03": mc("bounded symbolic execution of the real Problem.__call__/best_eval over z3 (LRA/NRA), every (f,v) history up to K evaluations, native replay of counterexamples",
+   "Every sequence of K<=3 (quick) / K<=4 all kinds, K=5 finite+NaN (thorough) evaluations with objective in {finite,NaN,+inf,-inf} and violation in {finite>=0,NaN,+inf}, every penalty>=0 and tolerance>0, filter_size in {1,2,3,unbounded}: z3 proves each clause of the selection rule on every path or returns a history replayed on the unmodified code; the same oracle is asserted end-to-end on OptimizeResult vs the evaluation log in the control-flow harness.",
+   TRUSTED + "Problem.maxcv is replaced on the instance by an injected violation per evaluation in H-FILT. Recency among exact duplicates and the 'feasible point with NaN objective' case are left to the code's documented rule.", "5/C03, 4/H-FILT"),
+ "C05": mc("bounded symbolic execution of whole runs (z3 LRA); counters in the harness' spies vs res.nfev/nit/histories",
+   "On every explored path: evaluations <= maxfev, res.nfev == number of Problem evaluations (also fun=None), nit <= maxiter, fun_history/maxcv_history == last min(nfev, history_size) logged objective values / harness-computed true violations in order. " + CTL, CTLNOTE, "5/C05"),
+ "C06": mc("bounded symbolic execution of whole runs and of single evaluations with symbolic geometry (z3 LRA); call-logging spies",
+   "On every path: exactly one objective call and at most one call per constraint function per evaluation, at the evaluated point mapped to user variables by the harness' own formula, none outside an evaluation (merit, best index, ratio, result assembly), omission only for an identical point. " + CTL, CTLNOTE, "5/C06"),
+ "C07": mc("bounded symbolic execution of whole runs (z3 LRA); status/message/success vs ground truth from the logs",
+   "On every path: status in the nine documented codes with its message; 0 only with resolution == radius_final, 1 only if the returned point meets target and tolerance, 2 only if all fixed, 3 only if the callback raised at its last call, 4 only for fun=None and feasible, 5 only if nfev == maxfev, 6 only if nit == maxiter, -1 only for lb>ub; success implies status 0..4, finite values and feasibility. " + CTL, CTLNOTE, "5/C07"),
+ "C08": mc("bounded symbolic execution of whole runs (z3 LRA) with NaN/inf/huge values injected at every user-function call",
+   "On every path: no exception leaves minimize; every value handed to the models is finite and within the barrier; a NaN result is never successful. Shapes include all-fixed, inconsistent bounds (+callback), dict constraints, fixed+nonlinear+scale, contradictory limits. Termination of the numerical kernels themselves is outside (they are stubbed). " + CTL, CTLNOTE, "5/C08"),
+ "C09": mc("bounded symbolic execution of whole runs (z3 LRA); first satisfied stopping request vs end of run",
+   "On every path: no evaluation follows one that satisfies a request (callback stop, f<=target & feasible, feasible in a feasibility problem); statuses 1/3/4 only if the request occurred at the last evaluation; nfev is that index. Trigger at the first point, inside the initial sampling and at a trust-region step are reached. " + CTL,
+   CTLNOTE + "With inconsistent bounds / all variables fixed the documented status -1 / 2 takes precedence over the request (the only evaluation is made while the early result is assembled). Target in [-1e6, 1e6].", "5/C09"),
+ "C15": mc("symbolic execution of the real sub-solvers over z3 nlsat (QF_NRA), all data symbolic for n=1; n=2 semi-symbolic grid in thorough",
+   "n=1: for every gradient, curvature, bounds (finite/infinite), radius, right-hand side: the returned step is within the bounds exactly, within the radius (1e-9), keeps inequalities that held at the origin and the equality null space (constrained tangential), improve_tcg on/off, all five solvers. Thorough adds n=2 with model data from a 6-point grid of degeneracies and symbolic bounds/radius.",
+   TRUSTED + "Constraint matrices concrete (pivoted QR is LAPACK); exact real arithmetic; magnitudes 0 or 1e-6..1e6; nlsat time-outs are reported as inconclusive.", "5/C15, 4/H-SUB"),
+ "C16": mc("symbolic execution of the real sub-solvers over z3 nlsat (QF_NRA), closed-form Cauchy oracle for n=1",
+   "n=1, all data symbolic: tangential steps do not increase the model and achieve the projected-gradient Cauchy decrease (closed form), normal steps do not increase the linearised violation, geometry steps do not decrease |q| and the Cauchy geometry step strictly increases it when a first-order improving direction exists. Thorough: n=2 semi-symbolic for the no-worse clauses.",
+   TRUSTED + "Gradient zero or >= 1e-6 for the Cauchy-decrease clause; margins 1e-9; nlsat time-outs reported as inconclusive.", "5/C16, 4/H-SUB"),
+ "C17": mc("bounded symbolic execution (z3 LRA) of the real constraint classes with limits ranging over -inf/finite/equal/+inf/NaN",
+   "For every assignment of limit patterns to 1..2 components x 1..2 objects (quick; up to 3 components thorough), scalar-broadcast limits, NaN coefficients, symbolic values/points: the numbers of internal inequalities/equalities are as stated and the largest internal violation equals the largest excess over [lb, ub] (margin 1e-7), linear and nonlinear; limit gaps inside the equality tolerance are covered by the 'tolgap' shapes.",
+   TRUSTED + "Limits of magnitude <= 1e3; coefficient matrices concrete where the point is symbolic and vice versa.", "5/C17, 4/H-PB"),
+ "C18": mc("inductive single-step checks of the real radius/resolution/penalty/centre rules over z3 nlsat/LRA with symbolic state and constants, plus invariant monitors on whole runs",
+   "From ANY state with 0<=radius_final<=resolution<=radius and ANY constants in their documented domains: update_radius, the short-step reduction and enhance_resolution re-establish the invariant, never increase the resolution, and enhance_resolution reaches radius_final or shrinks by a regime factor < 1 (so the number of reductions is bounded by the logarithm of the ratio); penalty stays finite and >= 0; after set_best_index no point has smaller merit (up to the code's rounding tolerance) and the centre is never chosen for replacement; the same invariants are monitored on every iteration of every control-flow path, and status 0 only with resolution == radius_final.",
+   CTLNOTE + "The log bound on the number of reductions is the arithmetic consequence of the proved per-step factor, not a solver result.", "5/C18, 4/H-TR"),
+ "C19": mc("symbolic execution of the real _set_default_constants/_set_default_options/minimize over z3 LRA with symbolic supplied values, enumerated key subsets; oracle = transcribed domain table",
+   "For every enumerated subset of supplied keys (each coupled pair in all 3 non-empty subsets, each single key, none, all 19; pairs of groups in thorough) and EVERY finite value of the supplied floats, z3 proves: ValueError iff a documented restriction is violated; otherwise the completed settings satisfy every documented domain and relation, supplied values are kept, unsupplied keys whose partner is unsupplied take the documented default; unknown names only warn and do not alter the run. Integer options over an enumerated boundary lattice, n in 1..2 (quick) / 1..5.",
+   TRUSTED + "The specification table (harness/opt.py) is transcribed from the minimize docstring and the ValueError messages; NaN/inf supplied values excluded.", "5/C19, 4/H-OPT"),
+ "C20": mc("bounded symbolic execution of whole runs (z3 LRA) with the callback stopping at every possible call (both continuations explored)",
+   "On every path with a callback (positional and keyword forms): exactly one call per evaluation, argument in user variables inside the bounds, fun passed is the objective value of that point; on the path where the callback raises at call k, minimize returns exactly that point (and fun) with nfev = k and status 3 - since both continuations of every call are explored, the argument is literally 'the point minimize would return if it stopped now'. " + CTL,
+   CTLNOTE + "With inconsistent bounds / all variables fixed the status stays -1 / 2. Callable objects/partials and callbacks overwriting the array are in the thorough tier.", "5/C20"),
+ "C11": mc("bounded symbolic execution of whole runs (z3 LRA); deep copies of the arguments before/after",
+   "PARTIAL: on every control-flow path x0 and the options dict are unchanged after the call. Determinism of repeated calls, nesting and thread schedules are not covered by this check (thread interleavings cannot be ranged over by a solver encoding of this code).",
+   CTLNOTE, "5/C11, 6"),
 }
 NA_REASON = {
  "C04": "limit point of hundreds of floating-point SQP iterations through LAPACK; no bounded symbolic encoding decides convergence to the minimiser (DESIGN.md section 6)",
